@@ -154,33 +154,12 @@ def binary_layout(ctx, r, F, envs):
         bad.append("the lenient array conversion has error exits: %s" % [sym.fmt(n(p.ret)) for p in errs][:2])
     ctx.ob(r, ("TryFrom<&[u8; N]>", "field-windows"), not bad, "; ".join(bad[:3]), cfg=F.key, where=arr.where())
     # slice conversion
-    dec = cmpmodel.decision(slc)
-    gate = binop("Ne", ("call", "core::slice::<impl [T]>::len", (P(1),)), ("cparam", "SIZE_IN_BYTES"))
-    want = sorted(map(repr, [
-        ([(gate, True)], ("agg", "adt:core::result::Result::Err", (("agg", "adt:errors::ParseError::InvalidStringLength", ()),))),
-        ([(gate, False)], ("call", arr.path, (("call", "core::result::Result::<T, E>::unwrap", (("call", "<T as core::convert::TryInto<U>>::try_into", (P(1),)),)),))),
-    ]))
-    okslice = sorted(map(repr, dec)) == want
-    if not okslice:
-        # the same gate spelled through the fallible conversion to &[u8; N] (Ok exactly when len == N)
-        TF = ("call", V("tf"), (P(1),))
-        alt_ok = alt_err = False
-        for cs, ret in dec:
-            if len(cs) != 1:
-                continue
-            m_ = match(("discr", TF), cs[0][0])
-            if m_ is None or not m_["tf"].endswith(("::try_from", "::try_into")):
-                continue
-            tfc = ("call", m_["tf"], (P(1),))
-            if cs[0][1] == 0 and ret == ("call", arr.path, (("field", ("variant", tfc, "Ok"), 0),)):
-                alt_ok = True
-            if cs[0][1] == 1 and ret == ("agg", "adt:core::result::Result::Err", (("agg", "adt:errors::ParseError::InvalidStringLength", ()),)):
-                alt_err = True
-        # the conversion target must be the array type of the array impl
-        tgt_ok = any(F.tys(i).startswith("&[u8; ") for i in arr.d.get("inputs", []))
-        okslice = alt_ok and alt_err and tgt_ok and len(dec) == 2
-    ctx.ob(r, ("TryFrom<&[u8]>", "length-gate"), okslice,
-           "slice conversion is %s; reference len != SIZE_IN_BYTES -> InvalidStringLength else try_from(array)" % [([(sym.fmt(c), t) for c, t in cs], sym.fmt(ret)) for cs, ret in dec],
+    # slice conversion, decided by abstract evaluation (any spelling: length test + try_into().unwrap(), or match on the
+    # fallible conversion to &[u8; N]): Err(InvalidStringLength) for lengths N-1, N+1, 0; the array parser's result unchanged for N
+    from . import c16
+    why = c16._visitor_semantics(F, slc, "slice")
+    ctx.ob(r, ("TryFrom<&[u8]>", "length-gate"), why is None,
+           "slice conversion: %s; reference len != SIZE_IN_BYTES -> Err(InvalidStringLength), else try_from(array) unchanged" % why,
            cfg=F.key, where=slc.where())
     # forwards to the array impl of the same type
     for ob in F.method("try_from", "hash::FuzzyHash<"):
